@@ -581,6 +581,19 @@ pub fn run(tier: Tier, seed: u64, replay: Option<String>) -> i32 {
     if let Some(path) = replay {
         let v: Value = serde_json::from_str(&std::fs::read_to_string(&path).expect("replay")).expect("json");
         let text = v["sources"][0]["text"].as_str().unwrap_or("").to_string();
+        if v["kind"] == "c08-cut" {
+            ctx.case(&format!("cut:{text}"), true);
+            for ts in [false, true] {
+                let o = if ts { crate::comp::compile_ts(&[text.clone()]) } else { crate::comp::compile_rasn1(&text, &crate::comp::Cfg::default()) };
+                if let crate::comp::Outcome::Ok(c) = o {
+                    if c.warnings.is_empty() {
+                        ctx.fail(Failure { finding: None, what: format!("input that is cut off ({}) is not reported: Ok without a warning", v["cut"].as_str().unwrap_or("?")), replay: v.clone() });
+                        break;
+                    }
+                }
+            }
+            return ctx.finish();
+        }
         let job = Job { class: "replay", text };
         let r = worker::run_all(&[job.text.clone()], 1, timeout).pop().unwrap();
         println!("replay: {r:?}");
@@ -591,6 +604,7 @@ pub fn run(tier: Tier, seed: u64, replay: Option<String>) -> i32 {
     let mut jobs: Vec<Job> = vec![];
     for (_p, v) in crate::ev::replay_files("C08") {
         if let Some(t) = v["sources"][0]["text"].as_str() {
+            // (also the `c08-cut` files: as plain inputs they must not panic either)
             jobs.push(Job { class: "replay", text: t.to_string() });
         }
     }
@@ -635,6 +649,70 @@ pub fn run(tier: Tier, seed: u64, replay: Option<String>) -> i32 {
     let results = worker::run_all(&texts, 16, timeout);
     for (j, r) in jobs.iter().zip(results) {
         handle(&mut ctx, j, r);
+    }
+    // ---- "malformed notation is reported as Err or as a warning": inputs that are cut off in a
+    // place where every token so far is fine (the closing END missing, a later module cut
+    // after one of its assignments, a stray word behind the last END, nothing but white space
+    // or a comment) must not come back as a clean Ok
+    {
+        let n_tr = tier.pick(600, 6000);
+        let mut drv = Driver::new(seed, 88, 800);
+        let gcfg = GenCfg { max_modules: 3, max_types: 5, ..GenCfg::default() };
+        let streams: Vec<Vec<u32>> = drv.draw(n_tr).iter().map(|t| t.current()).collect();
+        let mut inputs: Vec<(String, String)> = vec![
+            ("nothing".into(), String::new()),
+            ("white space only".into(), " \n\t \r\n".into()),
+            ("comment only".into(), "-- nothing here\n/* nor here */\n".into()),
+        ];
+        for s in &streams {
+            let text = print(&gen_set(s, &gcfg));
+            let mut src = Src::new(&s[s.len() / 2..]);
+            let lines: Vec<&str> = text.lines().collect();
+            let Some(last_end) = lines.iter().rposition(|l| l.trim() == "END") else { continue };
+            let last_begin = lines[..last_end].iter().rposition(|l| l.contains(" DEFINITIONS ")).unwrap_or(0);
+            match src.pick(3) {
+                0 => inputs.push(("closing END missing".into(), lines[..last_end].join("\n") + "\n")),
+                1 => {
+                    // keep the header and k >= 0 assignments of the last module
+                    let body = last_end - last_begin - 1;
+                    let k = src.pick(body + 1);
+                    inputs.push(("last module cut after an assignment".into(), lines[..last_begin + 1 + k].join("\n") + "\n"));
+                }
+                _ => inputs.push(("stray word behind the last END".into(), format!("{text}dangling\n"))),
+            }
+        }
+        let outcomes: Vec<(String, String, Option<String>)> = inputs
+            .par_iter()
+            .map(|(kind, text)| {
+                let mut bad = None;
+                for ts in [false, true] {
+                    let o = if ts { crate::comp::compile_ts(&[text.clone()]) } else { crate::comp::compile_rasn1(text, &crate::comp::Cfg::default()) };
+                    if let crate::comp::Outcome::Ok(c) = o {
+                        if c.warnings.is_empty() {
+                            bad = Some(format!("{} backend returned Ok without a warning ({} bytes of bindings)", if ts { "TypeScript" } else { "rasn" }, c.generated.len()));
+                            break;
+                        }
+                    }
+                }
+                (kind.clone(), text.clone(), bad)
+            })
+            .collect();
+        let mut reported = 0;
+        for (kind, text, bad) in outcomes {
+            ctx.case(&format!("cut:{text}"), true);
+            ctx.class(&format!("must-be-reported:{kind}"));
+            if let Some(d) = bad {
+                ctx.class("fails:unreported-truncation");
+                if reported < 3 {
+                    reported += 1;
+                    ctx.fail(Failure {
+                        finding: None,
+                        what: format!("input that is cut off ({kind}) is not reported: {d}"),
+                        replay: json!({"kind": "c08-cut", "cut": kind, "sources": [{"name": "input.asn", "text": text}]}),
+                    });
+                }
+            }
+        }
     }
     let infra = !ctx.inconclusive.is_empty() && ctx.evaluations == 0;
     let code = ctx.finish();
